@@ -1,7 +1,9 @@
 import Hfsm.Drive.Common
+import Hfsm.Drive.C20
 open Hfsm.Drive
 
-def replayers : List (String × Replayer) := []
+def replayers : List (String × Replayer) :=
+  [ ("c20", Hfsm.Drive.C20.replayer) ]
 
 partial def loop (h : IO.FS.Stream) (r : Replayer) (st : r.State) (n : Nat) : IO UInt32 := do
   let line ← h.getLine
